@@ -92,10 +92,30 @@ static void* body(void* p) {
 struct RunResult { int ntrace; sch_pt trace[512]; int tsan; int mismatch; int diverged; char what[200]; };
 
 // sequential reference: thread programs one after another
+// Runs in a forked child: whatever the library memoises in the shared objects during the reference run must not be
+// inherited by the explored executions (seeded change agent4_C14: a memo in the shared cache, warm after the reference
+// run, made every explored execution read-only). Every explored execution starts from the fixture state, as the reference does.
 static void reference(const Scenario& sc, std::vector<ThreadOut>& ref, std::vector<uint8_t>& ds) {
-	memset(g_target->memory, CANARY, randomx::DatasetSize);
-	ref.clear(); for (size_t t = 0; t < sc.th.size(); ++t) { Ctx c{ &sc, (int)t, {}, false }; body(&c); ref.push_back(c.out); }
-	ds.assign(g_target->memory, g_target->memory + randomx::DatasetSize);
+	const size_t N = randomx::DatasetSize, MAXD = 16, per = 8 + MAXD * 32, total = N + per * sc.th.size();
+	uint8_t* shm = (uint8_t*)__real_mmap(nullptr, total, PROT_READ | PROT_WRITE, MAP_SHARED | MAP_ANONYMOUS, -1, 0);
+	if (shm == MAP_FAILED) { fprintf(stderr, "c14: mmap for the reference run failed\n"); _exit(3); }
+	fflush(stdout); fflush(stderr);
+	pid_t pid = fork();
+	if (pid == 0) {
+		memset(g_target->memory, CANARY, N);
+		for (size_t t = 0; t < sc.th.size(); ++t) {
+			Ctx c{ &sc, (int)t, {}, false }; body(&c);
+			uint8_t* q = shm + N + per * t; uint32_t n = (uint32_t)std::min(c.out.digests.size(), MAXD), f = c.out.failed; memcpy(q, &n, 4); memcpy(q + 4, &f, 4);
+			for (uint32_t i = 0; i < n; ++i) memcpy(q + 8 + 32 * i, c.out.digests[i].data(), 32);
+		}
+		memcpy(shm, g_target->memory, N); _exit(0);
+	}
+	int st; waitpid(pid, &st, 0);
+	if (!(WIFEXITED(st) && WEXITSTATUS(st) == 0)) { fprintf(stderr, "c14: the sequential reference run of '%s' terminated abnormally\n", sc.name.c_str()); _exit(3); }
+	ref.clear();
+	for (size_t t = 0; t < sc.th.size(); ++t) { ThreadOut o; uint8_t* q = shm + N + per * t; uint32_t n, f; memcpy(&n, q, 4); memcpy(&f, q + 4, 4); o.failed = f; for (uint32_t i = 0; i < n; ++i) { std::array<uint8_t, 32> d; memcpy(d.data(), q + 8 + 32 * i, 32); o.digests.push_back(d); } ref.push_back(o); }
+	ds.assign(shm, shm + N);
+	__real_munmap(shm, total);
 }
 
 static void run_once(const Scenario& sc, const std::vector<int>& prefix, bool sched, const std::vector<ThreadOut>& ref, const std::vector<uint8_t>& refds, RunResult& rr) {
